@@ -787,10 +787,10 @@ class ReducedDensityMatrixPropagator(MatrixData, Saveable):
         Km = self.RelaxationTensor.Km # real
         Lm = self.RelaxationTensor.Lm # complex
         Ld = self.RelaxationTensor.Ld # complex - get by transposition
-        Kd = numpy.zeros(Km.shape, dtype=numpy.float64)
+        Kd = numpy.zeros(Km.shape, dtype=numpy.complex128)
         Nm = Km.shape[0]
         for m in range(Nm):
-            Kd[m, :, :] = numpy.transpose(Km[m, :, :])
+            Kd[m, :, :] = numpy.conj(numpy.transpose(Km[m, :, :]))
             
         indx = 1
 
@@ -1053,10 +1053,10 @@ class ReducedDensityMatrixPropagator(MatrixData, Saveable):
             cutoff_indx = self.TimeAxis.length
 
         Km = self.RelaxationTensor.Km
-        Kd = numpy.zeros(Km.shape, dtype=numpy.float64)
+        Kd = numpy.zeros(Km.shape, dtype=numpy.complex128)
         Nm = Km.shape[0]
         for m in range(Nm):
-            Kd[m, :, :] = numpy.transpose(Km[m, :, :])
+            Kd[m, :, :] = numpy.conj(numpy.transpose(Km[m, :, :]))
                         
         indx = 1
         indxR = 1
